@@ -336,4 +336,138 @@ theorem portable_rejects_extension (specs : List OptionSpec) (mode : Mode) (pre 
   apply shortLoop_flags_error _ _ _ _ _ _ _ hg
   intro i; simp [shortLoop, hf, hx, hm]
 
+/-! ## the option tables of the real built-ins (generated from yash-builtin on every run) -/
+
+/-- ☆ No generated table has two options with the same short name or the same long name, and every
+    name is well formed (not `-`, not empty, no `=`). -/
+theorem tables_no_duplicate_names :
+    (Generated.ArgSpecs.all.all fun t => tableOk t.2) = true := by decide
+
+/-- ☆ In every generated table each option is found by its own short name and denoted by its own
+    full long name (so `long_prefix` and `long_eq_arg` apply to every long option of every built-in). -/
+theorem tables_names_reach_their_option :
+    (Generated.ArgSpecs.all.all fun t => tableReachable t.2) = true := by decide
+
+/-! ## non-vacuity: a concrete table and concrete vectors meeting the hypotheses -/
+
+/-- `-a`, `-b` (flags), `-o`/`--output` (takes an argument), `--long`, `--lot` (flags),
+    `-x`/`--extra` (extension flag) -/
+def exT : List OptionSpec := [
+  { short := some 'a' }, { short := some 'b' },
+  { short := some 'o', long := some ['o','u','t','p','u','t'], takesArg := true },
+  { long := some ['l','o','n','g'] }, { long := some ['l','o','t'] },
+  { short := some 'x', long := some ['e','x','t','r','a'], extension := true }]
+
+def exO : OptionSpec := { short := some 'o', long := some ['o','u','t','p','u','t'], takesArg := true }
+def exX : OptionSpec := { short := some 'x', long := some ['e','x','t','r','a'], extension := true }
+def exM := Mode.withExtensions
+
+/-- `-ab X` ≡ `-a -b X` -/
+example : (parseArguments exT exM [['-','a','b'], ['X']]).view =
+    (parseArguments exT exM [['-','a'], ['-','b'], ['X']]).view :=
+  group_eq_separate exT exM 'a' { short := some 'a' } ['b'] [['X']] (by decide) rfl (by decide) ⟨'b', [], rfl, by decide⟩
+example : (parseArguments exT exM [['-','a','b'], ['X']]).view =
+    .ok ([({ short := some 'a' }, none), ({ short := some 'b' }, none)], [['X']]) := rfl
+/-- the side condition of `group_eq_separate` is forced: `-a-` is an error, `-a --` is not -/
+example : parseArguments exT exM [['-','a','-']] = .error (.unknownShort '-') := rfl
+example : (parseArguments exT exM [['-','a'], ['-','-']]).view = .ok ([({ short := some 'a' }, none)], []) := rfl
+
+private theorem ex_noarg_ab : ∀ c ∈ ['a', 'b'], NoArg exT c := by
+  intro c hc s hs
+  simp at hc
+  rcases hc with rfl | rfl
+  · have : findShort exT 'a' = some { short := some 'a' } := by decide
+    rw [this] at hs; cases hs; rfl
+  · have : findShort exT 'b' = some { short := some 'b' } := by decide
+    rw [this] at hs; cases hs; rfl
+
+/-- `-abab` ≡ `-ab -ab` -/
+example : (parseArguments exT exM [['-','a','b','a','b']]).view =
+    (parseArguments exT exM [['-','a','b'], ['-','a','b']]).view :=
+  group_eq_separate_general exT exM ['a','b'] ['a','b'] [] ex_noarg_ab ⟨'a', ['b'], rfl, by decide⟩
+    ⟨'a', ['b'], rfl, by decide⟩
+
+/-- `-oX Y` ≡ `-o X Y`, `-aboX` ≡ `-abo X` -/
+example : (parseArguments exT exM [['-','o','X'], ['Y']]).view =
+    (parseArguments exT exM [['-','o'], ['X'], ['Y']]).view :=
+  attached_eq_next exT exM 'o' exO ['X'] [['Y']] (by decide) rfl (by decide) (by decide) rfl
+example : (parseArguments exT exM [['-','a','b','o','X']]).view =
+    (parseArguments exT exM [['-','a','b','o'], ['X']]).view :=
+  attached_eq_next_general exT exM ['a','b'] ['X'] 'o' exO [] ex_noarg_ab (by decide) rfl (by decide) rfl
+    ⟨'a', ['b','o'], rfl, by decide⟩
+example : (parseArguments exT exM [['-','a','b','o','X']]).view =
+    .ok ([({ short := some 'a' }, none), ({ short := some 'b' }, none), (exO, some ['X'])], []) := rfl
+/-- an option-argument may look like anything, also like the separator -/
+example : (parseArguments exT exM [['-','o'], ['-','-'], ['-','a']]).view =
+    .ok ([(exO, some ['-','-']), ({ short := some 'a' }, none)], []) := rfl
+
+/-- `-a -o X -- -b --long` : everything after `--` is an operand -/
+example : OptionsOnly exT exM [['-','a'], ['-','o'], ['X']]
+    [⟨{ short := some 'a' }, .short 1, none⟩, ⟨exO, .short 1, some ['X']⟩] := rfl
+example : parseArguments exT exM ([['-','a'], ['-','o'], ['X']] ++ dashdash :: [['-','b'], ['-','-','l','o','n','g']]) =
+    .ok ([⟨{ short := some 'a' }, .short 1, none⟩, ⟨exO, .short 1, some ['X']⟩], [['-','b'], ['-','-','l','o','n','g']]) :=
+  dashdash_ends exT exM _ _ _ rfl
+/-- `-a X -b` : `-b` is an operand; `-` alone is an operand -/
+example : parseArguments exT exM ([['-','a']] ++ ['X'] :: [['-','b']]) =
+    .ok ([⟨{ short := some 'a' }, .short 1, none⟩], [['X'], ['-','b']]) :=
+  first_operand_ends exT exM _ _ _ _ rfl (Or.inl (by decide))
+example : parseArguments exT exM ([['-','a']] ++ ['-'] :: [['-','b']]) =
+    .ok ([⟨{ short := some 'a' }, .short 1, none⟩], [['-'], ['-','b']]) :=
+  first_operand_ends exT exM _ _ _ _ rfl (Or.inr rfl)
+
+/-- `--ou=X` ≡ `--output=X`; `--o` denotes `--output`; `--lo` is ambiguous; `--lon` denotes `--long` -/
+example : Denotes exT ['o','u'] exO := by decide
+example : Denotes exT ['l','o','n'] { long := some ['l','o','n','g'] } := by decide
+example : parseArguments exT exM [['-','-','o','u','=','X'], ['Y']] =
+    parseArguments exT exM [['-','-','o','u','t','p','u','t','=','X'], ['Y']] :=
+  long_prefix exT exM ['o','u'] ['o','u','t','p','u','t'] ['=','X'] exO [['Y']] (by decide) rfl (by decide)
+    (by decide) (Or.inr rfl)
+example : longMatch exT ['l','o'] = .error [{ long := some ['l','o','n','g'] }, { long := some ['l','o','t'] }] := rfl
+/-- `--ou=X` ≡ `--ou X` -/
+example : parseArguments exT exM [['-','-','o','u','=','X'], ['Y']] =
+    parseArguments exT exM [['-','-','o','u'], ['X'], ['Y']] :=
+  long_eq_arg exT exM ['o','u'] ['X'] [['Y']] (by decide) (by decide)
+    (by intro s h; have h' : Denotes exT ['o','u'] exO := by decide
+        unfold Denotes at h h'; rw [h'] at h; cases h; rfl)
+example : (parseArguments exT exM [['-','-','o','u','=','X'], ['Y']]).view = .ok ([(exO, some ['X'])], [['Y']]) := rfl
+
+/-- malformed: `-a -bZ`, `--nope`, `--lo`, `-a -bo`, `--output`, `--long=1` -/
+private theorem ex_flag_b : ∀ d ∈ ['b'], IsFlag exT exM d := by
+  intro d hd; simp at hd; subst hd
+  exact ⟨{ short := some 'b' }, by decide, rfl, by decide⟩
+example : parseArguments exT exM ([['-','a']] ++ ['-','b','Z','a'] :: [['X']]) = .error (.unknownShort 'Z') :=
+  malformed_unknown_short exT exM _ _ ['b'] ['a'] 'Z' _ (show OptionsOnly exT exM [['-','a']] _ from rfl) ex_flag_b
+    (by decide) ⟨'b', ['Z'], rfl, by decide⟩
+example : parseArguments exT exM ([['-','a']] ++ ['-','-','n','o','p','e'] :: [['X']]) = .error .unknownLong :=
+  malformed_unknown_long exT exM _ _ ['n','o','p','e'] [] _ (show OptionsOnly exT exM [['-','a']] _ from rfl)
+    (by decide) (by decide) (by decide) (Or.inl rfl)
+example : parseArguments exT exM ([['-','a']] ++ ['-','-','l','o'] :: [['X']]) =
+    .error (.ambiguousLong [{ long := some ['l','o','n','g'] }, { long := some ['l','o','t'] }]) :=
+  malformed_ambiguous_long exT exM _ _ ['l','o'] [] _ _ (show OptionsOnly exT exM [['-','a']] _ from rfl)
+    (by decide) (by decide) (by decide) (by decide) (Or.inl rfl)
+example : parseArguments exT exM ([['-','a']] ++ [['-','b','o']]) = .error (.missingArgument exO) :=
+  malformed_missing_argument_short exT exM _ _ ['b'] 'o' exO (show OptionsOnly exT exM [['-','a']] _ from rfl)
+    ex_flag_b (by decide) rfl (by decide) ⟨'b', ['o'], rfl, by decide⟩
+example : parseArguments exT exM ([['-','a']] ++ [['-','-','o','u','t']]) = .error (.missingArgument exO) :=
+  malformed_missing_argument_long exT exM _ _ ['o','u','t'] exO (show OptionsOnly exT exM [['-','a']] _ from rfl)
+    (by decide) rfl ⟨rfl, by decide⟩ (by decide) (by decide)
+example : parseArguments exT exM ([['-','a']] ++ ['-','-','l','o','n','g','=','1'] :: []) =
+    .error (.unexpectedArgument { long := some ['l','o','n','g'] }) :=
+  malformed_unexpected_argument exT exM _ _ ['l','o','n','g'] ['1'] _ [] (show OptionsOnly exT exM [['-','a']] _ from rfl)
+    (by decide) rfl ⟨rfl, by decide⟩ (by decide)
+
+/-- under the `portable` option: `--long`, `-oX`, `-x` are rejected (and `-o X`, `-ab` still accepted) -/
+example : parseArguments exT Mode.portable ([['-','a']] ++ ['-','-','l','o','n','g'] :: []) =
+    .error (.nonPortableLong { long := some ['l','o','n','g'] }) :=
+  portable_rejects_long exT Mode.portable _ _ ['l','o','n','g'] [] _ [] (show OptionsOnly exT Mode.portable [['-','a']] _ from rfl)
+    (by decide) (by intro h; exact absurd h.1 (by decide)) (by decide) (by decide) (Or.inl rfl)
+example : parseArguments exT Mode.portable ([['-','a']] ++ ['-','o','X'] :: []) = .error (.unseparatedArgument exO) :=
+  portable_rejects_attached exT Mode.portable _ _ [] ['X'] 'o' exO [] (show OptionsOnly exT Mode.portable [['-','a']] _ from rfl)
+    (by simp) (by decide) rfl (by decide) (by decide) rfl ⟨'o', [], rfl, by decide⟩
+example : parseArguments exT Mode.portable ([['-','a']] ++ ['-','x'] :: []) = .error (.nonPortableShort 'x' exX) :=
+  portable_rejects_extension exT Mode.portable _ _ [] [] 'x' exX [] (show OptionsOnly exT Mode.portable [['-','a']] _ from rfl)
+    (by simp) (by decide) rfl rfl ⟨'x', [], rfl, by decide⟩
+example : (parseArguments exT Mode.portable [['-','a','b'], ['-','o'], ['X'], ['Y']]).view =
+    .ok ([({ short := some 'a' }, none), ({ short := some 'b' }, none), (exO, some ['X'])], [['Y']]) := rfl
+
 end YashModel.Args
